@@ -186,7 +186,11 @@ func (r *seqRun) paths(dir string) (string, string) {
 }
 
 func openAt(dir, ptype string, imm bool, bits int, il, pl int64) (*store.Store, error) {
-	return store.OpenStore(context.Background(), ptype, filepath.Join(dir, "data"), filepath.Join(dir, "index"), imm,
+	return openAtCtx(context.Background(), dir, ptype, imm, bits, il, pl)
+}
+
+func openAtCtx(ctx context.Context, dir, ptype string, imm bool, bits int, il, pl int64) (*store.Store, error) {
+	return store.OpenStore(ctx, ptype, filepath.Join(dir, "data"), filepath.Join(dir, "index"), imm,
 		store.IndexBitSize(uint8(bits)), store.IndexFileSize(uint32(il)), store.PrimaryFileSize(uint32(pl)),
 		store.GCInterval(24*time.Hour), store.GCTimeLimit(0), store.SyncInterval(24*time.Hour), store.FileCacheSize(4))
 }
